@@ -17,6 +17,8 @@
 //	       concurrent submitters; checked by monitors (every submitted source queried, one answer
 //	       per position of every provider call, batch sizes, good data kept, eviction); the sequence
 //	       of provider calls must be that of a run of Model/InstanceDispatcher.v (Coq).
+//	cfg    the real cmd/gostatsd binary resolves the four cache options (+ limiter) from flags / TOML
+//	       (cfg.go); Coq checks they are the configured values or the documented defaults.
 //	disp   the real dispatcher loop alone, driven event by event (disp.go); Coq decides whether the
 //	       recorded trace (receives, provider calls, infos, cancellation, return) is a run of
 //	       Model/InstanceDispatcher.v.
@@ -67,17 +69,20 @@ type asyncIn struct {
 }
 
 type input struct {
-	Kind  string   `json:"kind"` // lock | async | disp
-	Cfg   cfgIn    `json:"cfg"`
-	Ops   []opIn   `json:"ops,omitempty"`
-	Async *asyncIn `json:"async,omitempty"`
-	Disp  *dispIn  `json:"disp,omitempty"`
+	Kind  string       `json:"kind"` // lock | async | disp | cfg
+	Cfg   cfgIn        `json:"cfg"`
+	Ops   []opIn       `json:"ops,omitempty"`
+	Async *asyncIn     `json:"async,omitempty"`
+	Disp  *dispIn      `json:"disp,omitempty"`
+	CfgS  *cfgStreamIn `json:"cfgs,omitempty"`
 }
 
 func main() {
 	a := hlib.ParseArgs()
 	em := hlib.NewEmitter()
 	defer em.Close()
+	defer cleanupCfgBin()
+	ncfg := 0
 	switch a.Mode {
 	case "gen":
 		r := hlib.NewRand(a.Seed)
@@ -89,6 +94,11 @@ func main() {
 			}
 			if i%12 == 5 {
 				em.Emit(genDisp(cr))
+				continue
+			}
+			if i%40 == 2 && ncfg < 30 { // a few dozen runs of the real binary's configuration code
+				ncfg++
+				em.Emit(runCfg(genCfgStream(cr)))
 				continue
 			}
 			em.Emit(genLock(cr, a.Tier))
@@ -105,6 +115,8 @@ func main() {
 				em.Emit(runAsync(in))
 			case "disp":
 				em.Emit(runDisp(in))
+			case "cfg":
+				em.Emit(runCfg(in))
 			default:
 				em.Emit(runLock(in))
 			}
